@@ -74,6 +74,7 @@ RULES = {
     "R55m": _get(KR, "r55_matmul"),
     "R55c": _get(KR, "r55_conv"),
     "R55f": _get(KR, "r55_flatten"),
+    "R56": _get(KR, "r56_attach_contract"),
     "R55k": _get(KR, "r55_ctors"),
     "R17": RR.r17_eq_fields,
     "R20": RR.r20_ownership_edges,
@@ -131,7 +132,7 @@ PROPERTY_RULES = {
     "C06": ["R37", "R30", "R55c"],
     "C07": ["R35", "R16", "R32", "R55p"],
     "C08": ["R1", "R2", "R3", "R4", "R7", "R50"],
-    "C09": ["R8", "R9", "R10", "R5", "R24", "R47", "R14t"],
+    "C09": ["R8", "R9", "R10", "R5", "R24", "R47", "R14t", "R56"],
     "C10": ["R23", "R20", "R25", "R9", "R11", "R10", "R26", "R24", "R44", "R53"],
     "C11": ["R24", "R5", "R27", "R6", "R26", "R9", "R25"],
     "C12": ["R5", "R27", "R3", "R6", "R7", "R17", "R23", "R47"],
